@@ -15,8 +15,8 @@ use crate::rng::{derive, Fnv};
 use crate::slots::{build_slot, exec, Slot};
 use crate::types::*;
 
-pub fn run(seed: u64, index: u64, dump_only: bool) -> i32 {
-    let g = gen_miri(derive(derive(seed, 0x3141_5926), index), index);
+pub fn run(seed: u64, index: u64, dump_only: bool, c18: bool) -> i32 {
+    let g = if c18 { crate::gen::gen_miri_c18(derive(derive(seed, 0x2718_2818), index), index) } else { gen_miri(derive(derive(seed, 0x3141_5926), index), index) };
     let spec = g.spec;
     if dump_only {
         println!("{}", serde_json::to_string(&spec).unwrap());
@@ -117,11 +117,19 @@ fn run_workload(spec: &RunSpec, label: u64) -> i32 {
         for (i, (at, out)) in row.iter().enumerate() {
             flat.push((*at, t, i));
             compared += 1;
+            // probe-strategy slots: the C18 checks over the recorded outcome (error identity,
+            // delivery of every query element, target correspondence)
+            if viol.is_none() && spec.slots[spec.threads[t].ops[i].slot].kind.is_probe() {
+                let mut v18 = vec![];
+                crate::engine::check_c18(&spec.threads[t].ops[i], &spec.slots[spec.threads[t].ops[i].slot], out, t, i, *at, &mut v18);
+                viol = v18.into_iter().next();
+            }
             if viol.is_none() && !out.same_answer(&table[t][i]) {
                 let op = &spec.threads[t].ops[i];
+                let probe = spec.slots[op.slot].kind.is_probe();
                 viol = Some(Violation {
-                    property: "C17".into(),
-                    kind: "result-mismatch".into(),
+                    property: if probe { "C18".into() } else { "C17".into() },
+                    kind: if probe { "concurrent-operation-affected".into() } else { "result-mismatch".into() },
                     detail: format!("slot={} [{}] call={} want: {} got: {}", op.slot, spec.slots[op.slot].label(), op.call.name(), table[t][i].brief(), out.brief()),
                     thread: t,
                     op: i,
